@@ -76,8 +76,23 @@ def derives_only_from_param(ctx: Ctx, f: Func, t: Term, pname: str) -> bool:
     return bool(ps) and all(p[2] == pname for p in ps)
 
 
+def pipeline_frame(ctx: Ctx, f: Func, wt: Term) -> tuple[Func, Term]:
+    """(function, term) in whose frame the weights pipeline is visible: the sink's own frame, or - when the weights
+    argument is a bare parameter of a single-call-site private function - its caller's."""
+    from ..util import contextual
+
+    if wt[0] == "param" and wt[1] == f.qualname and split_normalised(wt) is None:
+        wt2, f2 = contextual(ctx, f, wt)
+        if f2 is not f:
+            return f2, wt2
+    return f, wt
+
+
 def check_weights_pipeline(ctx: Ctx, f: Func, wt: Term) -> tuple[bool, str, Term | None]:
-    """weights == normalise(zero_under_failed(X)); returns (ok, why, X)."""
+    """weights == normalise(zero_under_failed(X)); returns (ok, why, X).  When the weights are a parameter of a
+    private function with a single call site (the pipeline was applied by the caller, or by a helper the caller uses),
+    the decision is made in the caller's frame; `pipeline_frame(ctx, f, wt)` tells which."""
+    f, wt = pipeline_frame(ctx, f, wt)
     w = split_normalised(wt)
     if w is None and wt[0] == "call":
         # the pipeline may live in a private helper (`weights = _normalize(weights, failed)`): look at its value
